@@ -75,6 +75,8 @@ Com4 == <<CL(" ", <<"line", "one">>, "\r"), CL(" ", <<"line", "two">>, "\r")>>
 Com5 == <<CL(" ", <<"first">>, ""), CL("\t  ", <<"indented", "second">>, " ")>>
 Com6 == <<CL(" ", <<"before", "the", "gap">>, ""), CL("", <<>>, ""), CL(" ", <<"after", "it">>, "")>>
 Com7 == <<CL(" ", <<"ends", "with", "blank", "lines">>, ""), CL("", <<>>, ""), CL(" ", <<>>, "")>>
+\* a comment that talks about a "package": the text of a Description literal looks like a package clause to a careless rewriter
+ComPkg == <<CL(" ", <<"names", "the", "package", "repository", "of", "the", "value">>, "")>>
 Comments == <<Com1, Com2, Com3, Com4, Com5, Com6, Com7>>
 
 LeafC(c) == Msg("Leaf", <<Commented(Fld("Str", 1, "string"), c), Commented(Fld("Num", 2, "int32"), Com1)>>, <<>>)
@@ -418,7 +420,9 @@ SepSel == <<ScalarShapes[8], ScalarShapes[6], ScalarShapes[10], ScalarShapes[13]
             EmbedShapes[1], EmbedShapes[2], EmbedShapes[4], EmptyShapes[1], DeepShapes[1], PairShapes[2],
             \* built-in element types below a slice / map modifier are never qualified
             Shape("s.allbytes", Desc(<<Msg("Root", <<Fld("Raw", 1, "bytes"), Rep(Fld("Items", 2, "bytes")), MapOf(Fld("Tags", 3, "bytes")),
-                                                     Rep(Fld("Fa", 4, "bool")), MapOf(Fld("Fb", 5, "uint32"))>>, <<>>)>>), BaseCfg)>>
+                                                     Rep(Fld("Fa", 4, "bool")), MapOf(Fld("Fb", 5, "uint32"))>>, <<>>)>>), BaseCfg),
+            \* the word "package" inside a description: only the package clause of the file may be rewritten
+            Shape("s.pkgcomment", Desc(<<Msg("Root", <<Commented(Fld("Str", 1, "string"), ComPkg), Commented(Fld("Num", 2, "int32"), Com1)>>, <<>>)>>), BaseCfg)>>
 
 SepTriple(sp) ==
   LET pr(role) == [key |-> "c13." \o sp.id, role |-> role, clause |-> "C13.same_behaviour", prop |-> "C13", exclkey |-> ""]
